@@ -488,7 +488,7 @@ fn htlcs_msg(c: &Content) -> Array<model::Htlc> {
 
 /// PSBT of a commitment transaction carrying the output witscripts, the shape
 /// `extract_psbt_witscripts` reads (an output without a witscript has none).
-fn psbt_with_witscripts(tx: &bitcoin::Transaction, ws: &[Vec<u8>]) -> PsbtWrapper {
+pub fn psbt_with_witscripts(tx: &bitcoin::Transaction, ws: &[Vec<u8>]) -> PsbtWrapper {
     let mut psbt = Psbt::from_unsigned_tx(tx.clone()).expect("unsigned tx");
     assert_eq!(psbt.outputs.len(), ws.len());
     for (o, w) in psbt.outputs.iter_mut().zip(ws.iter()) {
